@@ -11,7 +11,8 @@ from ..runner import Divergence, Driver, Env, Outcome, Violation, diff_streams
 
 THEOREMS = ["C14_reload_drops_all_timers", "C14_refuted_retry", "C14_refuted_waiter_timeout", "C14_refuted_retry_restart",
             "C14_refuted_retry_resume", "C14_refuted_waiter_timeout_restart", "C14_retry_lost_forever",
-            "C14_waiter_timeout_lost_forever", "C14_partial"]
+            "C14_waiter_timeout_lost_forever", "C14_partial", "C14_next_wakeup_is_earliest", "C14_timer_pops_exactly_the_due",
+            "C14_every_timer_fires_when_due", "C14_timer_heap_source_shape"]
 LEAN_TARGETS = ["WfProps.C14"]
 EXPLANATION = (
     "Model WfModel/Timers.lean: one handler of the in-process server stack = persisted tick log + handler row (status, "
@@ -40,7 +41,15 @@ EXPLANATION = (
     "by a control loop exactly at its due time and take effect (step re-entered with that retry number / TimeoutError raised), "
     "classified by what happened while it was pending (no_release / after_idle_release / after_restart) and by "
     "lost / early / late / no_effect / spurious; the four lost-after-cut signatures are the known findings (witnesses "
-    "replayed on every run with the F13 numbers: wait_fixed(0.5), idle_timeout=0.1), anything else is a VIOLATION."
+    "replayed on every run with the F13 numbers: wait_fixed(0.5), idle_timeout=0.1), anything else is a VIOLATION. "
+    "Inside one incarnation: stream 'multi' arms three to five timers at once (waiter timeouts and retry delays, distinct or tying due times, "
+    "optionally the workflow timeout) in a random push order (order of the fan-out / scheduler-opened gates), with idle_timeout just above / at the "
+    "largest gap between consecutive due times, never, or around one delay; a timer that was already due when the run left memory is classified "
+    "<kind>_overdue_at_<cut> (the loop slept past it: not one of the known losses, whose timers were still in the future at the cut). Lean: "
+    "C14_next_wakeup_is_earliest / C14_timer_pops_exactly_the_due / C14_every_timer_fires_when_due (a loop that sleeps until Runner.nextWakeup and "
+    "pops delivers every pending timer exactly when due, whatever the arming order); the model keeps the heap as a bag, which "
+    "C14_timer_heap_source_shape justifies (scheduled_wakeups is changed through heapq.heappush / heappop only, re-read from control_loop.py), and the "
+    "op `wake` compares the real runner's next_wakeup_timeout with Runner.nextWakeup at every quiescent point."
 )
 ASSUMPTIONS = suite.ENGINE_ASSUMPTIONS + [
     "process stop is modelled at quiescent points of the event loop (tick buffer drained); a stop between a tick's on_tick and its commands is property C13's subject",
@@ -318,7 +327,9 @@ def run(env: Env) -> Outcome:
     out = Outcome()
     out.rule = ("witnesses (F13 numbers and integral variants) + generated retry / wait_for_event / fan-out workflows on the real server stack; "
                 "stream 'norelease': idle_timeout 1e6, no process stop (monitors must be silent); stream 'cut': idle_timeout = a pending delay -1/0/+1, 1, 2x or 1000, "
-                "0-2 process stops at random quiescent points, service sends; non-trivial = a run with at least one expected timer or one cut; "
+                "0-2 process stops at random quiescent points, service sends; stream 'multi': 3-5 timers (wait_for_event timeouts / retry delays from 2..27 s, "
+                "15% with a tie, 35% with a workflow timeout) pending at once, armed in random order, idle_timeout = largest gap between consecutive due times +1/+2/+0, "
+                "1e6, a delay -1/+1 or 1, one process stop in 20% of the runs; non-trivial = a run with at least one expected timer or one cut; "
                 "distinct by (spec, conf, schedule)")
     rng = random.Random(env.rng.randrange(1 << 30))
     batch = _Batch()
